@@ -61,5 +61,6 @@ Val2 == Mk(<< <<"elem","a",1,"">>,
 ValDocs == <<Val1, Val2>>
 
 ASSUME \A i \in 1 .. Len(Catalogue) : WFDoc(Catalogue[i])
-ASSUME \A i \in 1 .. Len(ValDocs) : WFDoc(ValDocs[i])
+ASSUME \A i \in 1 .. Len(ValDocs) : WFDoc(ValDocs[i]) /\ DocSanity(ValDocs[i])
+ASSUME \A i \in 1 .. Len(Catalogue) : DocSanity(Catalogue[i])
 =============================================================================
